@@ -191,6 +191,9 @@ class ExprMixin(object):
                     if f.is_classmethod:
                         return BoundMeth(ClassVal(o.cls), f)
                     return BoundMeth(base, f)
+                if name in o.cls.class_assigns:
+                    cm, cnode = o.cls.class_assigns[name]
+                    return wrap_const(self.ce.eval(cm, cnode, "E5.classattr"))
                 if name == "__dict__":
                     self.event("dunder_dict", node, module, st)
                     return Opaque("__dict__")
@@ -207,6 +210,9 @@ class ExprMixin(object):
                 return FuncVal(f, None)
             if name == "__name__":
                 return Const(base.cls.name)
+            if name in base.cls.class_assigns:
+                cm, cnode = base.cls.class_assigns[name]
+                return wrap_const(self.ce.eval(cm, cnode, "E5.classattr"))
             raise AnalysisError("E5.attr", "class attribute %s" % name, node, module)
         if isinstance(base, ExtVal):
             return ExtVal(base.dotted + "." + name)
@@ -234,6 +240,8 @@ class ExprMixin(object):
         sl = slice(lo.v, hi.v, stp.v)
         if is_discrete(base) and strish(base):
             return st.folder().fold(lambda s: s[sl], [base])
+        if isinstance(base, Fin) and all(isinstance(x, (tuple, list, str)) for x in base.table.values()):
+            return st.folder().fold(lambda s: TTuple(s[sl]) if isinstance(s, (tuple, list)) else s[sl], [base])
         if isinstance(base, Const) and isinstance(base.v, (list, tuple)):
             return Const(TTuple(base.v[sl]) if isinstance(base.v, tuple) else _tlist(base.v[sl]))
         if isinstance(base, TupleVal):
@@ -813,8 +821,14 @@ class ExprMixin(object):
                 return App("in", (item, Opaque("table")))
         if isinstance(item, Const) and isinstance(item.v, str) and isinstance(container, (Opaque, App)):
             return App("in", (item, container))
-        if isinstance(container, Fin) and strish(container) and is_discrete(item):
-            return fo.fold(lambda c, x: x in c, [container, item])
+        if isinstance(container, Fin) and is_discrete(item) and all(isinstance(c, (str, dict, list, tuple)) for c in container.table.values()):
+            def isin2(c, x):
+                try:
+                    return x in c
+                except TypeError:
+                    return ERR
+            r = fo.fold(isin2, [container, item])
+            return r
         raise AnalysisError("E5.in", "membership test %r in %r" % (item, container), node, module)
 
     def e_BinOp(self, st, env, node, module):
@@ -979,6 +993,51 @@ class ExprMixin(object):
         """str.format with positional fields only."""
         import string
 
+        if isinstance(fmt, App) and fmt.op == "cat":
+            # a template assembled from pieces: braces in a non-constant piece are a hazard
+            for piece in fmt.args:
+                if isinstance(piece, Fin) and strish(piece):
+                    bad = st.folder().fold(lambda s_: ("{" in s_) or ("}" in s_), [piece])
+                    if self.decide(st, bad) is not False:
+                        self.hazard(st, "ValueError", node, module, bad, "str.format template contains text of the input: braces in it raise ValueError/IndexError/KeyError")
+                        self.assume(st, mk_not(bad))
+            return Opaque("format", deps_of(fmt))
+        if isinstance(fmt, Fin) and strish(fmt) and all(isinstance(a, (Const, Fin)) for a in args) and not kwargs:
+            # a table of templates (input-derived): format each; a template that does not fit raises
+            fo = st.folder()
+            nargs = len(args)
+
+            def fits(t):
+                import string as _s
+
+                try:
+                    auto = 0
+                    for lit, field, spec, conv in _s.Formatter().parse(t):
+                        if field is None:
+                            continue
+                        head = field.split(".")[0].split("[")[0]
+                        if head == "":
+                            idx = auto
+                            auto += 1
+                        elif head.isdigit():
+                            idx = int(head)
+                        else:
+                            return False
+                        if idx >= nargs:
+                            return False
+                    return True
+                except ValueError:
+                    return False
+
+            bad = fo.fold(lambda t: not fits(t), [fmt])
+            d = self.decide(st, bad)
+            if d is True:
+                self.hazard(st, "ValueError", node, module, TRUE, "str.format template from the input does not fit its arguments")
+                raise Dead()
+            if d is None:
+                self.hazard(st, "ValueError", node, module, bad, "str.format template from the input does not fit its arguments for some inputs")
+                self.assume(st, mk_not(bad))
+            return Opaque("format", deps_of(fmt))
         if not isinstance(fmt, Const):
             return Opaque("format", deps_of(fmt))
         parts = []
